@@ -449,6 +449,10 @@ def main(argv):
         ('seq', 'seq', '', 10, 40, ['r9nano', 'mi300a', 'r9nano:1x1', 'r9nano:1x4']),
         # dirty: a kernel leaves the whole L2 dirty, H2D into one page of the same buffer, reader kernel, D2H
         ('dirty', 'dirty', '', 1, 3, ['r9nano'] + (['mi300a'] if thorough else [])),
+        # copies: copy - kernel - copy with unaligned device pointers / lengths on sub-ranges, byte for byte
+        ('copies', 'copies', '', 8, 30, ['r9nano', 'mi300a']),
+        # twoctx: two contexts (two PIDs, same virtual addresses) run kernels concurrently on one GPU
+        ('twoctx', 'twoctx', '', 3, 8, ['r9nano', 'r9nano:1x1', 'mi300a']),
     ]
     if replay is None or replay.get('mode') == 'micro':
         mseed = replay['seed'] if replay else vlib.seed()
@@ -458,7 +462,7 @@ def main(argv):
         jobs = []
         for name, hmode, profile, nq, nt, plats in streams:
             mn = replay['n'] if replay else (nt if thorough else nq)
-            only = replay['index'] if (replay and hmode != 'dirty') else -1
+            only = replay['index'] if (replay and hmode not in ('dirty', 'twoctx')) else -1
             if replay and replay.get('platform') in plats:
                 plats = [replay['platform']]
             for p in ['emu'] + plats:
@@ -481,14 +485,14 @@ def main(argv):
             if got is None:
                 culprit = -1
                 for k in ref:
-                    if hmode == 'dirty':
+                    if hmode in ('dirty', 'twoctx'):
                         break
                     g1, _ = run_micro(binary, p, mseed, mn, k['index'], timeout=90, profile=profile, mode=hmode)
                     if g1 is None:
                         culprit = k['index']
                         break
                 micro_bad.append((j, culprit, 'platform %s does not finish (panic or hang) on generated %s #%d which emulation completes: %s'
-                                  % (p, 'sequence' if hmode == 'seq' else 'kernel', culprit, why_stopped(log))))
+                                  % (p, {'micro': 'kernel', 'seq': 'launch sequence'}.get(hmode, hmode + ' scenario'), culprit, why_stopped(log))))
                 continue
             for e, t in zip(ref, got):
                 if hmode == 'dirty':
@@ -501,6 +505,25 @@ def main(argv):
                                   'emu 0x%08x %s 0x%08x' % (e['index'], e['page'], {'page_data': 'device-to-host copy of the page',
                                   'read_back': 'the page as read by the next kernel', 'before': 'the page before it', 'after': 'the page after it'}[nm],
                                   nd, len(e[nm]), i, e[nm][i], p, t[nm][i]))
+                            break
+                elif hmode == 'copies':
+                    dd = None
+                    for oi, (a, b) in enumerate(zip(e['ops'] + [{'kind': 'final', 'off': 0, 'len': len(e['final']) // 2, 'data': e['final']}],
+                                                    t['ops'] + [{'kind': 'final', 'off': 0, 'len': len(t['final']) // 2, 'data': t['final']}])):
+                        if a.get('data') != b.get('data'):
+                            x, y = bytes.fromhex(a['data']), bytes.fromhex(b['data'])
+                            i = next(i for i in range(len(x)) if x[i] != y[i])
+                            nd = sum(1 for u, v in zip(x, y) if u != v)
+                            dd = ('copy stream %d: %s: device-to-host copy #%d of %d bytes from buffer offset %d returns %d wrong bytes, first at byte %d: emu 0x%02x %s 0x%02x'
+                                  % (e['index'], ' '.join('%s(%d,%d)' % (o['kind'], o['off'], o['len']) for o in e['ops'][:oi + 1])[-300:], oi, a['len'], a['off'], nd, i, x[i], p, y[i]))
+                            break
+                elif hmode == 'twoctx':
+                    dd = None
+                    for c in (0, 1):
+                        if e['out'][c] != t['out'][c]:
+                            i = next(i for i, (x, y) in enumerate(zip(e['out'][c], t['out'][c])) if x != y)
+                            dd = ('two contexts on one GPU (scenario %d, %d words): result of context %d differs at word %d: emu 0x%08x %s 0x%08x'
+                                  % (e['index'], e['words'], c, i, e['out'][c][i], p, t['out'][c][i]))
                             break
                 elif hmode == 'seq':
                     dd = None
@@ -536,6 +559,10 @@ def main(argv):
             distinct.add(vlib.case_hash(['seq', k['steps'], k['num_wg']]))
         for k in (refs.get('dirty') or []):
             distinct.add(vlib.case_hash(['dirty', k['index'], k['page']]))
+        for k in (refs.get('copies') or []):
+            distinct.add(vlib.case_hash(['copies', [(o['kind'], o['off'], o['len']) for o in k['ops']]]))
+        for k in (refs.get('twoctx') or []):
+            distinct.add(vlib.case_hash(['twoctx', k['index'], k['words']]))
         for j, idx, text in micro_bad[:1]:
             name, hmode, profile, mn, only, p = j
             words = None
